@@ -177,6 +177,17 @@ func main() {
 	wiretok.WalkCases = true
 	var ms []wiretok.Stream
 	for _, n := range payloadTypeNames() {
+		if n == "CRCProposal" {
+			// the reader reads the proposal type before dispatching, the writer writes it inside the
+			// dispatched method: one stream pair per proposal type (and one for "any other type")
+			labels := append(wiretok.CaseLabels(P, n, "Deserialize", "p.ProposalType"), "<other>")
+			for _, l := range labels {
+				wiretok.CaseSel["p.ProposalType"] = l
+				ms = append(ms, wiretok.Pair(n+"/"+l, P, n, "Serialize", "Deserialize"))
+			}
+			delete(wiretok.CaseSel, "p.ProposalType")
+			continue
+		}
 		ms = append(ms, wiretok.Pair(n, P, n, "Serialize", "Deserialize"))
 	}
 	for _, n := range []string{"DefaultOutput", "VoteOutput", "Mapping", "CrossChainOutput", "Withdraw", "ReturnSideChainDeposit", "ExchangeVotesOutput"} {
@@ -189,5 +200,15 @@ func main() {
 	ms = append(ms, wiretok.Pair("Output", C, "Output", "Serialize", "Deserialize"))
 	ms = append(ms, wiretok.Pair("Program", "core/contract/program", "Program", "Serialize", "Deserialize"))
 	wiretok.Print("mirrorStreams", ms)
+	seenG := map[string]bool{}
+	var guards []string
+	for _, gd := range wiretok.NilGuards {
+		if !seenG[gd] {
+			seenG[gd] = true
+			guards = append(guards, gd)
+		}
+	}
+	sort.Strings(guards)
+	ex.DefStrList("nilGuards", guards)
 	ex.Footer("C04")
 }
